@@ -56,6 +56,15 @@ func (c *RawClient) doTCPOp(op *Op) bool {
 		if mode == "" {
 			mode = "ok"
 		}
+		if hasFlag(op, "oncontrol") {
+			// a confused client sends the ConnectionBind on its control transport instead of a
+			// new data connection: it must be refused and must change nothing
+			c.Data = c.Data[:len(c.Data)-1]
+			c.tids[op.ID] = tid
+			c.pending[tid] = &pendOp{op: op, authed: true}
+			c.sendWire(raw, &Intent{Client: c.Spec.ID, OpID: op.ID, Kind: "connbind", Cred: mode})
+			return true
+		}
 		w.Net.DialAsync("client-data", &net.TCPAddr{IP: c.Addr.IP, Port: 0}, &net.TCPAddr{IP: w.SrvAddr.IP, Port: w.SrvAddr.Port},
 			func(conn *TCPConn, err error) {
 				c.mu.Lock()
